@@ -316,3 +316,39 @@ func (t *MetaTable) addLate(d *probeDef) {
 	t.ByName[d.Name] = &LintMeta{Name: d.Name, Kind: d.Kind, Source: string(d.Source), Configurable: d.Configurable, Meta: lateProbeMeta(d), Probe: true}
 	t.Names = sortedKeys(t.ByName)
 }
+
+// A lint that must never run: what a second registration under an existing name tries to add.
+type dupCert struct{}
+type dupCRL struct{}
+type dupOCSP struct{}
+
+func dupResult() *lint.LintResult {
+	return &lint.LintResult{Status: lint.Fatal, Details: "zsim: a lint whose registration was rejected as a duplicate ran"}
+}
+func (dupCert) CheckApplies(*x509.Certificate) bool            { return true }
+func (dupCert) Execute(*x509.Certificate) *lint.LintResult     { return dupResult() }
+func (dupCRL) CheckApplies(*x509.RevocationList) bool          { return true }
+func (dupCRL) Execute(*x509.RevocationList) *lint.LintResult   { return dupResult() }
+func (dupOCSP) CheckApplies(*ocsp.Response) bool               { return true }
+func (dupOCSP) Execute(*ocsp.Response) *lint.LintResult        { return dupResult() }
+
+// registerDuplicate tries to register another lint under the name of late probe d (already
+// registered). The API documents a panic for that; it is recovered here and reported back.
+func registerDuplicate(d *probeDef) (panicked bool) {
+	defer func() {
+		if r := recover(); r != nil {
+			panicked = true
+		}
+	}()
+	meta := lateProbeMeta(d)
+	meta.Description = "zsim duplicate of " + d.Name
+	switch d.Kind {
+	case KCert:
+		lint.RegisterCertificateLint(&lint.CertificateLint{LintMetadata: meta, Lint: func() lint.CertificateLintInterface { return dupCert{} }})
+	case KCRL:
+		lint.RegisterRevocationListLint(&lint.RevocationListLint{LintMetadata: meta, Lint: func() lint.RevocationListLintInterface { return dupCRL{} }})
+	case KOCSP:
+		lint.RegisterOcspResponseLint(&lint.OcspResponseLint{LintMetadata: meta, Lint: func() lint.OcspResponseLintInterface { return dupOCSP{} }})
+	}
+	return false
+}
